@@ -386,6 +386,12 @@ func (c *crawlGen) seed(cfg *Cfg) []QRow {
 		if len(outs) > 0 && c.Chance(1, 2) {
 			outs = append(outs, outs[c.N(len(outs))]) // the same link twice on one page
 		}
+		if c.o.Prop == "C15" && len(c.Sc.Queue) > 0 && c.Chance(1, 2) {
+			// a link to a URL that is itself a row of the queue (waiting or being crawled right now)
+			if q := c.Sc.Queue[c.N(len(c.Sc.Queue))]; strings.HasPrefix(q.Value, "http://") {
+				outs = append(outs, q.Value)
+			}
+		}
 		c.reliable = true
 		c.page(host, p, v, c.N(3), cfg, outs)
 		c.reliable = false
